@@ -152,3 +152,24 @@ pub fn c02_cases(thorough: bool, seed: u64) -> Vec<(Shape, ErrPlan)> {
     }
     v
 }
+
+pub fn c03_shapes(thorough: bool, seed: u64) -> Vec<Shape> {
+    let mut v = vec![
+        Shape::new("zero_gates", &[Commit, ConCommitted], &[]),
+        Shape::new("one_gate", &[Commit, AllocMul, Con], &[]),
+        Shape::new("two_gates_one_phase", &[Commit, AllocMul, Mul, Con], &[]),
+        Shape::new("two_phase_1_plus_1", &[Commit, AllocMul, Con], &[&[Chal, AllocMul, Con]]),
+        Shape::new("three_gates_pad4", &[Commit, Commit, AllocMul, Mul, Alloc, Con, Con], &[]),
+        Shape::new("two_phase_pad4", &[Commit, AllocMul, AllocMul, Con], &[&[Chal, Mul, Con]]),
+        Shape::new("phase2_only", &[Commit], &[&[Chal, AllocMul, AllocMul, Con]]),
+    ];
+    if thorough {
+        v.push(Shape::new("five_gates_pad8", &[Commit, AllocMul, AllocMul, Mul, Alloc, Alloc, Con], &[&[Chal, AllocMul, Con]]));
+        v.push(Shape::new("eight_gates", &[AllocMul, AllocMul, AllocMul, AllocMul, AllocMul, AllocMul, AllocMul, AllocMul, Con], &[]));
+        let mut rng = rand_chacha::ChaChaRng::seed_from_u64(seed ^ 0xc03);
+        for k in 0..10 {
+            v.push(random_shape(&mut rng, &format!("random{}", k), 8));
+        }
+    }
+    v
+}
